@@ -5,7 +5,7 @@
     beartype/_check/forward/fwdresolve.py            resolve_hint_pep484_ref_str_decor_curr (the qualname
                                                      short cut + eval of the string in the forward scope)
     beartype/_check/forward/scope/fwdscopemake.py    make_scope_forward_decor_curr  (`fwLocals`, `fwLayers`)
-    beartype/_check/forward/scope/fwdscopecls.py     BeartypeForwardScope.__missing__ (`fwLookup`: a proxy)
+    beartype/_check/forward/scope/fwdscopecls.py     BeartypeForwardScope.__missing__ (`fwLk`, `proxyLk`: a proxy)
     beartype/_util/func/utilfuncscope.py             find_func_locals_frame (`findFrameNamed`)
     beartype/_check/forward/reference/fwdrefproxy.py _proxy_hint_ref (`Proxy`)
     beartype/_check/forward/reference/_cls/fwdrefmeta.py
@@ -20,7 +20,8 @@
 
   What is abstracted (DESIGN §4 C07 "limits"): real frame introspection is the list `St.stack` of running
   activations with their locals; a string annotation is represented by the expression CPython parses it to
-  (`HExpr.quoted e`, `H.str e`) and `eval` of that string is `evalH … true e` (the harness checks on every run
+  (`HExpr.quoted e`, `H.str e`; printer `showE` and parser `pExpr` below, `C07_show_parse`) and `eval` of that string
+  is `evalH … true e` (the harness checks on every run
   that `ast.parse` of each printed annotation yields exactly that expression); the objects names are bound to are
   opaque identities `H.obj id` with an attribute table (`Heap`); the check of the resolved hint itself is the
   Bear core's (`RH` is handed to it); `modAttr` models the module-attribute lookup AFTER the repair
@@ -707,5 +708,111 @@ structure ModInv (s : St) : Prop where
   funcs : ∀ fr ∈ s.funcs, fr.lex = [] ∧ fr.hint0.frameless = true ∧ ∀ h, fr.hint = some h → h.frameless = true
   scopeClosed : ∀ n w, s.modScope.get? n = some w → w.closed = true
   heapClosed : HeapClosed s.heap
+
+/-! ### the source text of an annotation: tokens, printer, parser
+
+  `showE` prints an expression as Python writes it (`|` left-associative, postfix `.name` / `[…]`, parentheses only
+  around a union that is the base of a postfix or the right operand of `|`); a string literal is ONE token holding
+  the tokens of its content. `pExpr` is a recursive-descent parser of that grammar (fuel = recursion budget).
+  `Props/C07.lean` proves `pExpr (showE e) = e`; the harness checks on every run that CPython's tokenizer and
+  parser agree with `showE` on every generated annotation. -/
+
+inductive Tok where
+  | id (n : Name) | lit (l : Lit) | dot | lbr | rbr | comma | bar | lpar | rpar
+  | str (ts : List Tok)
+deriving Repr, Inhabited
+
+def HExpr.isBor : HExpr → Bool
+  | .bor _ _ => true
+  | _ => false
+
+def showE : HExpr → List Tok
+  | .name n => [.id n]
+  | .attr e n => (if e.isBor then [.lpar] ++ showE e ++ [.rpar] else showE e) ++ [.dot, .id n]
+  | .sub e es => (if e.isBor then [.lpar] ++ showE e ++ [.rpar] else showE e) ++ [.lbr] ++ showArgs es ++ [.rbr]
+  | .bor a b => showE a ++ [.bar] ++ (if b.isBor then [.lpar] ++ showE b ++ [.rpar] else showE b)
+  | .lit l => [.lit l]
+  | .quoted e => [.str (showE e)]
+where
+  showArgs : List HExpr → List Tok
+  | [] => []
+  | [e] => showE e
+  | e :: e' :: es => showE e ++ [.comma] ++ showArgs (e' :: es)
+
+mutual
+def pExpr : Nat → List Tok → Option (HExpr × List Tok)
+  | 0, _ => none
+  | f+1, ts => match pPost f ts with
+    | some (a, r) => pOrs f a r
+    | none => none
+def pOrs : Nat → HExpr → List Tok → Option (HExpr × List Tok)
+  | 0, _, _ => none
+  | f+1, acc, ts => match ts with
+    | .bar :: r => (match pPost f r with
+      | some (b, r') => pOrs f (.bor acc b) r'
+      | none => none)
+    | _ => some (acc, ts)
+def pPost : Nat → List Tok → Option (HExpr × List Tok)
+  | 0, _ => none
+  | f+1, ts => match pAtom f ts with
+    | some (a, r) => pTrail f a r
+    | none => none
+def pTrail : Nat → HExpr → List Tok → Option (HExpr × List Tok)
+  | 0, _, _ => none
+  | f+1, acc, ts => match ts with
+    | .dot :: .id n :: r => pTrail f (.attr acc n) r
+    | .lbr :: r => (match pArgs f r with
+      | some (es, .rbr :: r') => pTrail f (.sub acc es) r'
+      | _ => none)
+    | _ => some (acc, ts)
+def pAtom : Nat → List Tok → Option (HExpr × List Tok)
+  | 0, _ => none
+  | f+1, ts => match ts with
+    | .id n :: r => some (.name n, r)
+    | .lit l :: r => some (.lit l, r)
+    | .lpar :: r => (match pExpr f r with
+      | some (e, .rpar :: r') => some (e, r')
+      | _ => none)
+    | .str ts' :: r => (match pExpr f ts' with
+      | some (e, []) => some (.quoted e, r)
+      | _ => none)
+    | _ => none
+def pArgs : Nat → List Tok → Option (List HExpr × List Tok)
+  | 0, _ => none
+  | f+1, ts => match pExpr f ts with
+    | some (e, .comma :: r) => (match pArgs f r with
+      | some (es, r') => some (e :: es, r')
+      | none => none)
+    | some (e, r) => some ([e], r)
+    | none => none
+end
+
+/-! ### printing then parsing -/
+
+/-- the rest of the input does not continue a postfix expression -/
+def stopTrail : List Tok → Bool
+  | .dot :: .id _ :: _ => false
+  | .lbr :: _ => false
+  | _ => true
+
+/-- … nor a union -/
+def stopExpr : List Tok → Bool
+  | .bar :: _ => false
+  | ts => stopTrail ts
+
+/-- every subscription has at least one argument (`x[]` is not Python) -/
+def HExpr.wf : HExpr → Bool
+  | .name _ => true
+  | .attr e _ => e.wf
+  | .sub e es => e.wf && !es.isEmpty && wfL es
+  | .bor a b => a.wf && b.wf
+  | .lit _ => true
+  | .quoted e => e.wf
+where
+  wfL : List HExpr → Bool
+  | [] => true
+  | e :: es => e.wf && wfL es
+
+def showP (e : HExpr) : List Tok := if e.isBor then [.lpar] ++ showE e ++ [.rpar] else showE e
 
 end BearVerif.Fwd
